@@ -28,6 +28,7 @@ var verifSched struct {
 	resume  []chan struct{}
 	writer  int
 	readers int
+	rheld   []int // read locks held, per worker
 }
 
 // verifRWMutex has the method set of sync.RWMutex; under the explorer, lock operations are
@@ -79,4 +80,7 @@ func (m *verifRWMutex) RUnlock() {
 		return
 	}
 	verifSched.readers--
+	if me := verifSched.cur; me < len(verifSched.rheld) {
+		verifSched.rheld[me]--
+	}
 }
